@@ -606,24 +606,17 @@ class Subspace(IdealPoint):
         return DualPoint(orthed[..., 0, :])
 
     def _data_with_dual(self):
-        midpoints = np.sum(self.ideal_basis, axis=-2) / self.ideal_basis.shape[-2]
+        #a vector spanning the Minkowski-orthogonal complement of the
+        #subspace (for a hyperplane: its spacelike normal). computing
+        #it as a kernel works for every position of the subspace,
+        #including subspaces through the origin of the ball, where the
+        #sphere parameters degenerate.
+        complement = utils.kernel(
+            self.ideal_basis @ self.minkowski
+        ).swapaxes(-1, -2)
 
-        poincare_ctr, poincare_rad = self.sphere_parameters(model=Model.POINCARE)
-        spacelike_guess = Point(poincare_ctr, model=Model.KLEIN).coords(
-            model=Model.PROJECTIVE
-        )
-
-        to_orthogonalize = np.concatenate(
-            [np.expand_dims(midpoints, axis=-2),
-            self.ideal_basis[..., 1:, :],
-            np.expand_dims(spacelike_guess, axis=-2)],
-            axis=-2)
-
-        orthed = utils.indefinite_orthogonalize(self.minkowski,
-                                                to_orthogonalize)
-        return np.concatenate([
-            np.expand_dims(orthed[..., -1, :], axis=-2),
-            self.ideal_basis], axis=-2)
+        return np.concatenate([complement[..., :1, :], self.ideal_basis],
+                              axis=-2)
 
     def sphere_parameters(self, model=Model.POINCARE):
         """Get parameters describing a k-sphere corresponding to this subspace
